@@ -53,7 +53,7 @@ func TestC03Binary(t *testing.T) {
 		defer cancel()
 		host, err := dialWS(pp.addr, nodeIdent(0), 1)
 		if err != nil {
-			fail("dial: %v", err)
+			fail("[setup failed] dial: %v", err)
 		}
 		defer host.end("")
 		if err := host.connectHost(ctx); err != nil {
@@ -61,7 +61,7 @@ func TestC03Binary(t *testing.T) {
 		}
 		cli, err := dialWS(pp.addr, nodeIdent(2), 2)
 		if err != nil {
-			fail("dial: %v", err)
+			fail("[setup failed] dial: %v", err)
 		}
 		defer cli.end("")
 		creq := pool.ConnectRequest{VipnodeVersion: "verif", NodeInfo: ethnode.UserAgent{Version: "Geth/verif", Kind: ethnode.Geth, IsFullNode: false, Network: 1}}
@@ -127,7 +127,10 @@ func TestC03Binary(t *testing.T) {
 					}
 				}
 				// the charge so far is price x (time since connect), one peer: bounded by the measured real time
-				upper := new(big.Int).Mul(priceWei, big.NewInt(int64(tDone.Sub(tConnect0))))
+				// (10 ms + 10 % slack: the two processes read the clock on different CPUs of a loaded machine)
+				span := tDone.Sub(tConnect0)
+				span += span/10 + 10*time.Millisecond
+				upper := new(big.Int).Mul(priceWei, big.NewInt(int64(span)))
 				upper.Div(upper, big.NewInt(int64(time.Minute)))
 				charged := new(big.Int).Neg(bal)
 				if charged.Sign() < 0 || charged.Cmp(upper) > 0 {
